@@ -191,6 +191,9 @@ type Receipt struct {
 	Logs    []Log
 	// Err is the reason of a failed top-level frame (diagnostics only).
 	Err string
+	// GasBeforeRefund is the gas consumed before the refund and the floor were
+	// applied (diagnostics and generator feedback only).
+	GasBeforeRefund uint64
 }
 
 // Rejected names a transaction that is not includable and every validity rule it
@@ -209,6 +212,17 @@ type Stats struct {
 	Precompiles int
 	Creates     int
 	Reverts     int // frames that ended by REVERT or exceptional halt
+	// Feature counters.
+	SelfDestructs      int // SELFDESTRUCT executed
+	SelfDestructsFresh int // ... by an account created in the same transaction
+	DelegationsSet     int // EIP-7702 authorizations applied
+	DelegatedRuns      int // frames whose code was resolved through a delegation
+	Collisions         int // create address collisions
+	ColdAccesses       int
+	RefundedTxs        int // transactions with a non-zero refund
+	FlooredTxs         int // transactions lifted to the EIP-7623 floor
+	ValueCalls         int // nested calls that moved ether
+	Logs               int
 }
 
 // Result is the outcome of Apply.
